@@ -48,7 +48,13 @@ class SymContMixin:
         if o.kind == "deque":
             yield st, self._thint(o.extra["hi"] - o.extra["lo"])
             return
-        raise Unsupported("len of symbolic set")
+        if o.kind == "set":
+            card = z3.Function("set.card", o.extra["arr"].sort(), self.T.val(0).sort())
+            n = card(o.extra["arr"])
+            self.used_assumptions.add("len() of a symbolic set is an uninterpreted non-negative cardinality")
+            yield st.assume(n >= self.intval(0)), n
+            return
+        raise Unsupported("len of symbolic container")
 
     def sym_container_index(self, st, r, idx):
         o = st.obj(r)
